@@ -57,15 +57,17 @@ CONFIG = {
                     ", so the expected node is computed on the tree as it is after the call",
                     "exact equality for dyadic/integer lengths, 1e-9 relative otherwise and for all means / NJ / UPGMA "
                     "lengths",
-                    "normalisation by tree size is asserted for weighted distances only (the step normaliser counts "
-                    "the root edge, which no document settles)",
+                    "normalisation by tree size: weighted values are divided by the total edge length, step counts by "
+                    "the number of edges counting one edge per node (the seed's own edge included, as compile_from_tree, "
+                    "path_edge_count and Tree.edges() do); weighted normalisation on a tree of total length 0 raises "
+                    "ZeroDivisionError in the library and is not asserted",
                     "UPGMA on general matrices: topology and join heights compared only when the exact reference run meets no tie (otherwise the result depends on the iteration order of a set of Taxon objects)",
                     "treemeasure.patristic_distance is not asserted on trees with partially missing lengths whose "
                     "refresh collapses an unrooted basal bifurcation (None + x there is unsettled, DESIGN 2.1)"],
 }
 
 TOL = 1e-9
-EXACT_PATTERNS = ("none", "unit", "smallint", "dyadic", "partial", "inc", "missing")
+EXACT_PATTERNS = ("none", "unit", "smallint", "dyadic", "partial", "inc", "missing", "zero")
 
 
 def close(a, b, scale=1.0):
@@ -181,6 +183,10 @@ def pdm_cases(draw, max_leaves):
     sl = draw(shapes.with_lengths(
         shapes.shapes(min_leaves=2, max_leaves=max_leaves, max_arity=5, unifurcations=True),
         patterns=("none", "unit", "smallint", "dyadic", "dyadic", "float", "partial", "partial")))
+    if draw(st.sampled_from([False, False, False, False, False, True])):
+        for k, nd in enumerate(shapes.spec_nodes(sl["spec"])):
+            nd["len"] = 0.0 if k else None
+        sl["lenpat"] = "zero"
     n = shapes.n_leaves(sl["spec"])
     hist = draw(shapes.namespace_history(n, max_extra=2))
     subsets = draw(st.lists(st.lists(st.integers(0, n - 1), unique=True, min_size=0, max_size=n), min_size=1, max_size=3))
@@ -298,6 +304,9 @@ def verify_matrix(ctx, pdm, pre, tx, subsets, store_edges, exact, tag):
 
     # -- MPD / MNTD with filter subsets
     total = pre.total_length(include_root=True)
+    # "tree size": total edge length (weighted) / number of edges (unweighted).  compile_from_tree, like Tree.edges(),
+    # counts one edge per node, the seed's own edge included.
+    tree_size = {True: total, False: len(pre.nodes())}
     subsets = [None] + [s for s in case["subsets"]]
     for sub in subsets:
         if sub is None:
@@ -328,16 +337,42 @@ def verify_matrix(ctx, pdm, pre, tx, subsets, store_edges, exact, tag):
                     continue
                 ctx.check(got != "refused" and close(got, want, scale), name + "_is_the_stated_average", "C14.pdm." + name,
                           lambda: "subset %r weighted=%r got %r want %r; %s" % (sub, weighted, got, want, tag))
-                if weighted and total > 0:
-                    gotn = ctx.call("C14.pdm." + name, meth, filter_fn=fn, is_normalize_by_tree_size=True)
-                    ctx.check(close(gotn, want / total, scale / total), name + "_normalized_by_tree_length",
+                size = tree_size[weighted]
+                if size > 0:
+                    gotn = ctx.call("C14.pdm." + name, meth, filter_fn=fn, is_weighted_edge_distances=weighted,
+                                    is_normalize_by_tree_size=True)
+                    ctx.check(close(gotn, want / size, (scale if weighted else want) / size), name + "_normalized_by_tree_size",
                               "C14.pdm.%s_normalized" % name,
-                              lambda: "subset %r got %r want %r (tree length %r); %s" % (sub, gotn, want / total, total, tag))
-    if total > 0:
-        a, b = leaves[0], leaves[-1]
-        gotn = ctx.call("C14.pdm.patristic_distance", pdm.patristic_distance, tx[a], tx[b], is_normalize_by_tree_size=True)
-        ctx.check(close(gotn, path[(a, b)][0] / total, scale / total), "patristic_distance_normalized_by_tree_length",
-                  "C14.pdm.patristic_normalized", lambda: "got %r want %r; %s" % (gotn, path[(a, b)][0] / total, tag))
+                              lambda: "subset %r weighted=%r got %r want %r (tree size %r); %s" % (sub, weighted, gotn, want / size, size, tag))
+    # -- the remaining functions that take the two flags, under all four combinations
+    for weighted, col in ((True, 0), (False, 1)):
+        size = tree_size[weighted]
+        for normalize in (False, True):
+            if normalize and not size > 0:
+                # weighted distances on a tree of total length 0: the library divides by zero (ZeroDivisionError);
+                # nothing is documented for that, so nothing is asserted
+                ctx.cls("pdm:normalize_skipped_zero_tree_length")
+                continue
+            div = float(size) if normalize else 1.0
+            sc = (scale if weighted else max(path[p][1] for p in pairs)) / div
+            combo = "weighted=%r normalize=%r tree_size=%r" % (weighted, normalize, size)
+            want_l = sorted(path[p][col] / div for p in pairs)
+            got_l = sorted(ctx.call("C14.pdm.distances", pdm.distances, is_weighted_edge_distances=weighted,
+                                    is_normalize_by_tree_size=normalize))
+            ctx.check(len(got_l) == len(want_l) and all(close(x, y, sc) for x, y in zip(got_l, want_l)),
+                      "distances_under_both_flags", "C14.pdm.distances_flags", lambda: "%s got %r want %r; %s" % (combo, got_l, want_l, tag))
+            got_s = ctx.call("C14.pdm.sum_of_distances", pdm.sum_of_distances, is_weighted_edge_distances=weighted,
+                             is_normalize_by_tree_size=normalize)
+            ctx.check(close(got_s, sum(want_l), sc * len(pairs)), "sum_of_distances_under_both_flags", "C14.pdm.sum_of_distances_flags",
+                      lambda: "%s got %r want %r; %s" % (combo, got_s, sum(want_l), tag))
+            for a, b in ((leaves[0], leaves[-1]), (leaves[-1], leaves[0]), (leaves[0], leaves[0])):
+                want = path[(a, b)][col] / div
+                g1 = ctx.call("C14.pdm.distance", pdm.distance, tx[a], tx[b], is_weighted_edge_distances=weighted,
+                              is_normalize_by_tree_size=normalize)
+                meth = pdm.patristic_distance if weighted else pdm.path_edge_count
+                g2 = ctx.call("C14.pdm.pair_normalized", meth, tx[a], tx[b], is_normalize_by_tree_size=normalize)
+                ctx.check(close(g1, want, sc) and close(g2, want, sc), "pair_distance_under_both_flags", "C14.pdm.pair_flags",
+                          lambda: "%s %s-%s distance() %r direct %r want %r; %s" % (combo, lab[a], lab[b], g1, g2, want, tag))
     return path, scale, eq
 
 
@@ -348,9 +383,13 @@ def _check_pdm_rest(ctx, case, ndm_node_limit, count, n, ns, tree, pre, pdm, lea
     if case.get("csv"):
         delim = case["csv"]
         rown, coln = case.get("csv_names", [True, True])
-        for weighted, col in ((True, 0), (False, 1)):
+        sizes = {True: pre.total_length(include_root=True), False: len(nodes)}
+        for weighted, col, normalize in ((True, 0, False), (False, 1, False), (True, 0, True), (False, 1, True)):
+            if normalize and not sizes[weighted] > 0:
+                continue
+            div = float(sizes[weighted]) if normalize else 1.0
             out = io.StringIO()
-            ctx.call("C14.csv.write", pdm.write_csv, out, is_normalize_by_tree_size=False,
+            ctx.call("C14.csv.write", pdm.write_csv, out, is_normalize_by_tree_size=normalize,
                      is_weighted_edge_distances=weighted, delimiter=delim, is_first_row_column_names=rown,
                      is_first_column_row_names=coln)
             back = ctx.call("C14.csv.read", phylogeneticdistance.PhylogeneticDistanceMatrix.from_csv,
@@ -362,8 +401,8 @@ def _check_pdm_rest(ctx, case, ndm_node_limit, count, n, ns, tree, pre, pdm, lea
             for a in leaves:
                 for b in leaves:
                     got = ctx.call("C14.csv.read", back.patristic_distance, tx[a], tx[b])
-                    ctx.check(close(got, path[(a, b)][col], scale if weighted else 0.0), "csv_round_trip_keeps_the_entries", "C14.csv.values",
-                              lambda: "weighted=%r %s-%s got %r want %r; %s" % (weighted, lab[a], lab[b], got, path[(a, b)][col], tag))
+                    ctx.check(close(got, path[(a, b)][col] / div, (scale if weighted else 0.0) / div), "csv_round_trip_keeps_the_entries", "C14.csv.values",
+                              lambda: "weighted=%r normalize=%r %s-%s got %r want %r; %s" % (weighted, normalize, lab[a], lab[b], got, path[(a, b)][col] / div, tag))
         ctx.cls("pdm:csv_hop:%r" % delim)
         ctx.cls("pdm:csv_names:row=%r,col=%r" % (rown, coln))
 
